@@ -142,7 +142,9 @@ class Simulation(Structure):
             # Recreate exisitng simulation 
             sim = super(Simulation,cls).__new__(cls)
             clibrebound.reb_simulation_init(byref(sim))
-            w = sa.warnings # warnings will be appended to previous warnings (as to not repeat them) 
+            # warnings will be appended to previous warnings (as to not repeat them);
+            # an archive opened with process_warnings=True has already shown them and stores none
+            w = getattr(sa, "warnings", c_int(0))
             clibrebound.reb_simulation_create_from_simulationarchive_with_messages(byref(sim),byref(sa),c_int64(snapshot),byref(w))
             for majorerror, value, message in BINARY_WARNINGS:
                 if w.value & value:
